@@ -1,5 +1,5 @@
 // Assumed std contracts of unit edge_list_gen3 (EdgeList::cycle / EdgeList::wheel): the two iterator sources / adapters that
-// vstd does not specify.  Both are verbatim copies of contracts already used elsewhere in /verif.
+// vstd does not specify.  vx_once is a verbatim copy; vx_chain has one added clause (see there).
 
 // rustdoc core::iter::once: "Creates an iterator that yields an element exactly once."  A source: its item sequence is the
 // one element, whatever happens later; `Once::next` is `Option::take`, which terminates.
@@ -17,13 +17,17 @@ fn vx_once<T>(x: T) -> (r: impl Iterator<Item = T>)
 // `Chain::next` pulls from `a` until `a` returns None, then from `b`, and returns None when `b` does.  In the prophetic model:
 // the items pulled from the chain are a prefix of a's items followed by b's items; if the chain is driven until it returns
 // None then both parts were (so their item sequences are complete) and the chain's items are all of them.
-// Verbatim from prelude/edge_list_more_std.rs.
+// Clauses 1, 2, 3, 5 verbatim from prelude/edge_list_more_std.rs.  Clause 4 is NEW here (needed for the NESTED chain
+// `once(..).chain(once(..)).chain(once(..))` of EdgeList::wheel): "first iterate over values from the first iterator and then
+// over values from the second" - an item of `b` is pulled only after `a` returned None, so if the chain yields more items than
+// `a` does, `a` was driven until it returned None.
 #[verifier::external_body]
 fn vx_chain<A: Iterator, B: Iterator<Item = A::Item>>(a: A, b: B) -> (r: impl Iterator<Item = A::Item>)
     ensures
         r.obeys_prophetic_iter_laws() == (a.obeys_prophetic_iter_laws() && b.obeys_prophetic_iter_laws()),
         r.decrease() is Some == (a.decrease() is Some && b.decrease() is Some),
         r.obeys_prophetic_iter_laws() ==> r.remaining().is_prefix_of(a.remaining() + b.remaining()),
+        r.obeys_prophetic_iter_laws() && r.remaining().len() > a.remaining().len() ==> a.will_return_none(),
         r.obeys_prophetic_iter_laws() && r.will_return_none()
             ==> a.will_return_none() && b.will_return_none() && r.remaining() == a.remaining() + b.remaining(),
 { a.chain(b) }
